@@ -24,23 +24,23 @@ type NAlert struct {
 
 // Notif is one HTTP request received by the simulated receiver world.
 type Notif struct {
-	Seq       int       `json:"seq"`
-	T         Dur       `json:"t"` // arrival, offset from plan start
-	Inst      string    `json:"inst"`
-	Receiver  string    `json:"receiver"`
-	Integ     int       `json:"integ"`
-	GroupKey  string    `json:"group_key"`
-	Status    string    `json:"status"`
-	GroupLabels map[string]string `json:"group_labels"`
-	CommonLabels map[string]string `json:"common_labels"`
+	Seq               int               `json:"seq"`
+	T                 Dur               `json:"t"` // arrival, offset from plan start
+	Inst              string            `json:"inst"`
+	Receiver          string            `json:"receiver"`
+	Integ             int               `json:"integ"`
+	GroupKey          string            `json:"group_key"`
+	Status            string            `json:"status"`
+	GroupLabels       map[string]string `json:"group_labels"`
+	CommonLabels      map[string]string `json:"common_labels"`
 	CommonAnnotations map[string]string `json:"common_annotations,omitempty"`
-	Truncated int       `json:"truncated"`
-	Alerts    []NAlert  `json:"alerts"`
-	Outcome   string    `json:"outcome"` // 2xx 5xx 4xx hang reset
-	Latency   Dur       `json:"latency,omitempty"`
-	Done      Dur       `json:"done,omitempty"` // instant the response was written
-	PayloadReceiver string `json:"payload_receiver"`
-	BodyHash  string    `json:"body_hash"`
+	Truncated         int               `json:"truncated"`
+	Alerts            []NAlert          `json:"alerts"`
+	Outcome           string            `json:"outcome"` // 2xx 5xx 4xx hang reset
+	Latency           Dur               `json:"latency,omitempty"`
+	Done              Dur               `json:"done,omitempty"` // instant the response was written
+	PayloadReceiver   string            `json:"payload_receiver"`
+	BodyHash          string            `json:"body_hash"`
 }
 
 func (n *Notif) OK() bool { return n.Outcome == "2xx" }
